@@ -225,8 +225,14 @@ impl Tzif {
                 if let Some(posix_tz_string) = self.posix_tz_string() {
                     resolve_posix_tz_string_for_epoch_seconds(posix_tz_string, epoch_seconds.0)
                 } else {
+                    let record =
+                        db.local_time_type_records
+                            .first()
+                            .ok_or(TemporalError::general(
+                                "Tzif data has no local time type record.",
+                            ))?;
                     Ok(TimeZoneOffset {
-                        offset: db.local_time_type_records[0].utoff.0,
+                        offset: record.utoff.0,
                         transition_epoch: None,
                     })
                 }
